@@ -133,4 +133,50 @@ def streamStep (d : StreamDrv) (f : List String) : StreamDrv × String :=
       else (d, "bad-op")
   | _, _ => (d, "bad-op")
 
+/-- `scanall` / `drain`: repeat an op while it answers with a Send -/
+def repeatOp (d : StreamDrv) (op sid : String) : Nat → List String → StreamDrv × String
+  | 0, acc => (d, " ; ".intercalate acc.reverse)
+  | fuel + 1, acc =>
+    let (d', r) := streamStep d [op, sid]
+    if r.startsWith "send " then repeatOp d' op sid fuel (r :: acc) else (d', " ; ".intercalate (r :: acc).reverse)
+
+def phaseOf (d : StreamDrv) (sid : String) : Option Phase :=
+  match d.net with
+  | some n => (findStream n sid).map (·.s.phase)
+  | none => none
+
+/-- the engine's full op set: the conditional forms used by generated scripts on top of `streamStep` -/
+def streamStep' (d : StreamDrv) (f : List String) : StreamDrv × String :=
+  match f with
+  | ["begin", sid] =>
+    match phaseOf d sid with
+    | some .idle => streamStep d ["step", sid]
+    | _ => (d, "bad-state")
+  | ["register", sid] =>
+    match phaseOf d sid with
+    | some .scanned => if (match d.net with | some n => (findStream n sid).map (fun e => decide (ackedOf d sid < e.s.sent.length)) | none => none) = some true
+        then (d, "bad-state") else streamStep d ["step", sid]
+    | _ => (d, "bad-state")
+  | ["scanstep", sid] =>
+    match phaseOf d sid with
+    | some .started => streamStep d ["step", sid]
+    | some (.scanning _) => streamStep d ["step", sid]
+    | some .scanned =>
+      -- the tracked variant may still have Sends of the scan to hand over
+      let (d', r) := streamStep d ["step", sid]
+      if r.startsWith "send " then (d', r) else (d, "noop")
+    | _ => (d, "bad-state")
+  | ["scanall", sid] =>
+    match phaseOf d sid with
+    | some .started => repeatOp d "step" sid 100000 []
+    | some (.scanning _) => repeatOp d "step" sid 100000 []
+    | some .scanned => (d, "noop")
+    | _ => (d, "bad-state")
+  | ["drain", sid] =>
+    match phaseOf d sid with
+    | some .live => repeatOp d "deliver" sid 100000 []
+    | some (.done _) => repeatOp d "deliver" sid 100000 []
+    | _ => (d, "bad-state")
+  | _ => streamStep d f
+
 end Drand.Driver
